@@ -9,7 +9,7 @@
 //!
 //! status: 0 Ok, 1 LimbReallocationShrinksBelowMetadata, 2 InsufficientHomomorphicCapacity, 3 PlaintextBase2KMismatch,
 //!         4 MissingAutomorphismKey, 5 PlaintextAlignmentImpossible, 6 MultiplicationPrecisionUnderflow,
-//!         7 any other anyhow error, 99 the call panicked (program stops there).
+//!         7 any other anyhow error, 8 OperandNotCompact, 99 the call panicked (program stops there).
 //! err_scaled = floor(max slot error * 2^log_delta) of the destination against the shadow complex evaluation
 //!              (-1: no statement: step failed / shadow invalid / not decryptable with an f64 plaintext),
 //! mag        = ceil(max |shadow slot|) + 1 of the destination (0 when invalid).
@@ -183,8 +183,7 @@ fn err_code<E: AsRef<dyn std::error::Error + Send + Sync + 'static>>(e: &E) -> i
         Some(CKKSCompositionError::MissingAutomorphismKey { .. }) => 4,
         Some(CKKSCompositionError::PlaintextAlignmentImpossible { .. }) => 5,
         Some(CKKSCompositionError::MultiplicationPrecisionUnderflow { .. }) => 6,
-        #[allow(unreachable_patterns)]
-        Some(_) => 8, // a variant added to the crate after this harness was written
+        Some(CKKSCompositionError::OperandNotCompact { .. }) => 8,
         None => ST_OTHER,
     }
 }
@@ -1039,7 +1038,8 @@ macro_rules! gen_impl {
                 let (d, a, bb) = (d as i128, a as i128, bb as i128);
                 let aeff = al + abud;
                 let noncompact = |l: i128, bu: i128, sz: i128| (l + bu + b - 1) / b != sz;
-                let keep = defects && rng.below(2) == 0;
+                // (products of operands with spare limbs return OperandNotCompact: most operands are compacted first, as the crate's example does)
+                let keep = rng.below(if defects { 2 } else { 6 }) == 0;
                 // products assert compact operands in poulpy-core (known class): compact first, as the crate's example does
                 let mut fix: Vec<i128> = Vec::new();
                 let off_a = (aeff - dmk).max(0);
@@ -1153,12 +1153,7 @@ macro_rules! gen_impl {
                         };
                         let xs: Vec<usize> = if which == MUL_MANY || which == DOT_CT { pick_same_ld(rng, &mach) } else { (0..n).map(|_| cands[rng.below(cands.len() as u64) as usize]).collect() };
                         let mut ys: Vec<usize> = if which == DOT_CT { pick_same_ld(rng, &mach) } else { vec![] };
-                        if which == DOT_CT && n >= 2 && !keep {
-                            // the fused path of ckks_dot_product_ct is wrongly scaled for "mixed" lists (known class): avoid it
-                            let amin = xs.iter().map(|r| mach.meta(*r).1).min().unwrap();
-                            let bmin = ys.iter().map(|r| mach.meta(*r).1).min().unwrap();
-                            if (mach.meta(xs[0]).0 - mach.meta(ys[0]).0) * (amin - bmin) < 0 { ys = xs.clone(); }
-                        }
+                        if which == DOT_CT && rng.below(8) == 0 { ys = xs.clone(); }
                         if which != ADD_MANY && which != DOT_CZ && which != DOT_CR { fix = xs.iter().chain(ys.iter()).map(|r| *r as i128).collect(); }
                         let (l, lbp) = ptmeta(rng, 20);
                         st(&[which, d, 0, 0, n as i128, pack(&xs), if which == DOT_CT { pack(&ys) } else { parts }, l, lbp, seed])
